@@ -852,6 +852,21 @@ def disp8(ctx) -> List[Ob]:
             out.append(bad("DISP-8", mk.qualname, key, ctx.where(mk), f"the reader drops field(s) {sorted(missing_r)} of {K.name} (popped or never passed)"))
         else:
             out.append(ok("DISP-8", td.qualname, key, where, f"written {sorted(wkeys)} / read {sorted(rkeys)} = fields {sorted(own)}"))
+    # (d'') the writer descends into every region and writes a canonical member list
+    for arm in arms:
+        if arm.test is not None and "RegionBlock" in _named_classes(arm.test):
+            ext = [c for c in A.walk_no_nested(ast.Module(arm.body, [])) if isinstance(c, ast.Call) and isinstance(c.func, ast.Attribute) and c.func.attr in ("extend", "update", "append") and c.args and ".subregion.graph" in A.unparse(c.args[0])]
+            key = "writer descends into regions"
+            if ext:
+                out.append(ok("DISP-8", td.qualname, key, ctx.where(td, ext[0]), f"work-list extended with {A.unparse(ext[0].args[0])[:50]}"))
+            else:
+                out.append(bad("DISP-8", td.qualname, key, ctx.where(td, arm.node), "the writer does not put the blocks of a region's sub-graph on its work-list: blocks inside regions are never written"))
+            cont = [x for x in A.walk_no_nested(ast.Module(arm.body, [])) if isinstance(x, ast.Assign) and isinstance(x.targets[0], ast.Subscript) and isinstance(x.targets[0].slice, ast.Constant) and x.targets[0].slice.value == "contains"]
+            key = "region member list is canonical"
+            if cont and isinstance(cont[0].value, ast.Call) and isinstance(cont[0].value.func, ast.Name) and cont[0].value.func.id == "sorted" and not cont[0].value.keywords:
+                out.append(ok("DISP-8", td.qualname, key, ctx.where(td, cont[0]), "'contains' is sorted: independent of the insertion order of the sub-graph, which the reader does not preserve"))
+            elif cont:
+                out.append(bad("DISP-8", td.qualname, key, ctx.where(td, cont[0]), "'contains' follows the insertion order of the sub-graph, which differs after a read: writing the re-read graph gives a different dictionary"))
     # (d') the edge lists are written from the stored tuples, not from the filtered view
     for tgt, fld in (("edges", "_jump_targets"), ("backedges", "backedges")):
         sts = [x for x in A.walk_no_nested(td.node) if isinstance(x, ast.Assign) and len(x.targets) == 1 and isinstance(x.targets[0], ast.Subscript) and A.unparse(x.targets[0].value) == tgt]
